@@ -4,7 +4,9 @@ pub mod c01;
 pub mod c02;
 pub mod c03;
 pub mod c04;
+pub mod c05;
 pub mod c06;
+pub mod c07;
 pub mod c08;
 pub mod pairs;
 pub mod util;
@@ -17,7 +19,9 @@ pub fn run(ctx: &Ctx) -> PropResult {
         "C02" => c02::run(ctx),
         "C03" => c03::run(ctx),
         "C04" => c04::run(ctx),
+        "C05" => c05::run(ctx),
         "C06" => c06::run(ctx),
+        "C07" => c07::run(ctx),
         "C08" => c08::run(ctx),
         other => Err(format!("no monitor for {}", other)),
     }
